@@ -853,3 +853,174 @@ Proof. rewrite defs_from. apply lookup_build. Qed.
 
 Lemma keys_from kd is : keys (defs kd (from_instructions is)) = first_keys (sel kd is).
 Proof. rewrite defs_from. apply keys_build. Qed.
+
+(** ** C09: the instance checker *)
+
+Definition Views_ok (is toi intoi bodyi rt : list instr) : Prop :=
+  intoi = toi /\ bodyi = body_part is /\ body_part toi = bodyi /\
+  (forall kd,
+     NoDup (keys (sel kd toi)) /\
+     (forall k v, In (k, v) (sel kd toi) -> last_value k (sel kd is) = Some v) /\
+     (forall k, In k (keys (sel kd is)) -> In k (keys (sel kd toi)))) /\
+  rt = toi.
+
+Lemma chk_views_sound is toi intoi bodyi rt :
+  chk_views is toi intoi bodyi rt = true -> Views_ok is toi intoi bodyi rt.
+Proof.
+  unfold chk_views, Views_ok. rewrite !andb_true_iff, !instrs_eqb_eq, forallb_forall.
+  intros [[[[H1 H2] H3] H4] H5]. repeat split; auto.
+  - specialize (H4 kd (in_all_kinds kd)). rewrite !andb_true_iff in H4. destruct H4 as [[H4 _] _].
+    apply listN_eqb_eq in H4. rewrite <- H4. apply nodup_from_NoDup.
+  - intros k v Hin. specialize (H4 kd (in_all_kinds kd)). rewrite !andb_true_iff in H4.
+    destruct H4 as [[_ H4] _]. rewrite forallb_forall in H4. specialize (H4 (k, v) Hin).
+    cbn [fst snd] in H4. destruct (last_value k (sel kd is)) as [v'|]; [|discriminate].
+    apply instr_eqb_eq in H4. now subst.
+  - intros k Hin. specialize (H4 kd (in_all_kinds kd)). rewrite !andb_true_iff in H4.
+    destruct H4 as [_ H4]. rewrite forallb_forall in H4.
+    unfold keys in Hin. apply in_map_iff in Hin. destruct Hin as [[k' v] [<- Hin]].
+    apply memN_In. exact (H4 (k', v) Hin).
+Qed.
+
+Theorem model_views_ok is :
+  let p := from_instructions is in
+  Views_ok is (to_instructions p) (into_instructions p) (body_instructions p)
+           (to_instructions (from_instructions (to_instructions p))).
+Proof.
+  cbn zeta. pose proof (WF_from_instructions is) as Hp. unfold Views_ok, body_instructions.
+  split; [apply into_is_to|]. split; [apply body_from|].
+  split; [now apply body_part_to_instructions|]. split; [|now apply listing_roundtrip].
+  intros kd. rewrite sel_to_instructions by exact Hp. split; [apply Hp|]. split.
+  - intros k v Hin. rewrite <- lookup_from. apply In_lookup; [apply Hp | exact Hin].
+  - intros k Hin. rewrite keys_from. now apply first_keys_In.
+Qed.
+
+(** * Extending a map: keys and values in general (C08 via concatenation) *)
+
+Lemma nodup_from_seen_ext s1 s2 l :
+  (forall x, memN x s1 = memN x s2) -> nodup_from s1 l = nodup_from s2 l.
+Proof.
+  revert s1 s2. induction l as [|y t IH]; intros s1 s2 H; cbn [nodup_from]; [reflexivity|].
+  rewrite (H y). destruct (memN y s2); [now apply IH|].
+  f_equal. apply IH. intros x. cbn [memN]. now rewrite H.
+Qed.
+
+Lemma nodup_from_nodup_from s s' l : nodup_from s (nodup_from s' l) = nodup_from (s' ++ s) l.
+Proof.
+  revert s s'. induction l as [|y t IH]; intros s s'; cbn [nodup_from]; [reflexivity|].
+  rewrite memN_app. destruct (memN y s') eqn:E1; cbn [orb].
+  - apply IH.
+  - cbn [nodup_from]. destruct (memN y s) eqn:E2.
+    + rewrite IH. apply nodup_from_seen_ext. intros x. cbn [app memN].
+      rewrite !memN_app. destruct (N.eqb_spec x y) as [->|Hne]; [|reflexivity].
+      now rewrite E2, orb_true_r.
+    + f_equal. rewrite IH. apply nodup_from_seen_ext. intros x. cbn [app memN].
+      rewrite !memN_app. cbn [memN]. destruct (N.eqb x y); reflexivity.
+Qed.
+
+Lemma extend_snoc a l x : extend a (l ++ [x]) = ins (fst x) (snd x) (extend a l).
+Proof. unfold extend. now rewrite fold_left_app. Qed.
+
+Theorem keys_extend a l : keys (extend a l) = keys a ++ nodup_from (keys a) (keys l).
+Proof.
+  induction l as [|[k v] l IH] using rev_ind.
+  - cbn. now rewrite app_nil_r.
+  - rewrite extend_snoc. cbn [fst snd]. rewrite keys_app. cbn [keys map fst].
+    rewrite nodup_from_snoc. fold (keys l).
+    assert (Hin : In k (keys (extend a l)) <-> memN k (keys a) || memN k (keys l) = true).
+    { rewrite IH, in_app_iff, nodup_from_In, orb_true_iff, !memN_In.
+      destruct (In_dec_keys k a); tauto. }
+    destruct (memN k (keys a) || memN k (keys l)) eqn:E.
+    + rewrite app_nil_r. rewrite keys_ins_in; [exact IH | now apply Hin].
+    + rewrite ins_notin, keys_app; [cbn [keys map fst]; now rewrite IH, app_assoc|].
+      intros H. apply Hin in H. discriminate.
+Qed.
+
+Theorem lookup_extend k a l :
+  lookup k (extend a l) = match last_value k l with Some v => Some v | None => lookup k a end.
+Proof.
+  induction l as [|[k0 v] l IH] using rev_ind; [reflexivity|].
+  rewrite extend_snoc, last_value_snoc, lookup_ins. cbn [fst snd].
+  destruct (N.eqb k k0); [reflexivity | exact IH].
+Qed.
+
+Lemma NoDup_keys_extend a l : NoDup (keys a) -> NoDup (keys (extend a l)).
+Proof.
+  intros Ha. rewrite keys_extend. apply NoDup_app_disjoint; [exact Ha | apply nodup_from_NoDup|].
+  intros x Hx Hf. apply nodup_from_In in Hf. tauto.
+Qed.
+
+Lemma alist_ext (l m : alist) :
+  NoDup (keys l) -> keys l = keys m -> (forall k, lookup k l = lookup k m) -> l = m.
+Proof.
+  revert m. induction l as [|[k v] t IH]; intros [|[k' v'] t']; cbn [keys map fst]; try discriminate.
+  - reflexivity.
+  - intros Hnd [= <- Hk] Hl. inversion Hnd as [|? ? Hni Hnd']; subst.
+    pose proof (Hl k) as Hk0. cbn [lookup] in Hk0. rewrite N.eqb_refl in Hk0. inversion Hk0; subst.
+    f_equal. apply IH; [exact Hnd' | exact Hk|]. intros k'.
+    destruct (N.eqb_spec k' k) as [->|Hne].
+    + assert (H1 : lookup k t = None) by now apply lookup_None.
+      assert (H2 : lookup k t' = None) by (apply lookup_None; unfold keys; now rewrite <- Hk).
+      now rewrite H1, H2.
+    + specialize (Hl k'). cbn [lookup] in Hl. destruct (N.eqb_spec k' k); [contradiction | exact Hl].
+Qed.
+
+Lemma keys_rev (m : alist) : keys (rev m) = rev (keys m).
+Proof. unfold keys. apply map_rev. Qed.
+
+Lemma lookup_rev_NoDup k m : NoDup (keys m) -> lookup k (rev m) = lookup k m.
+Proof.
+  intros Hnd. destruct (lookup k m) as [v|] eqn:E.
+  - apply In_lookup; [rewrite keys_rev; now apply NoDup_rev|].
+    apply in_rev. rewrite rev_involutive. now apply lookup_In.
+  - apply lookup_None. rewrite keys_rev. rewrite <- in_rev. now apply lookup_None.
+Qed.
+
+Theorem extend_build a l : NoDup (keys a) -> extend a (build l) = extend a l.
+Proof.
+  intros Ha. apply alist_ext.
+  - now apply NoDup_keys_extend.
+  - rewrite !keys_extend. f_equal. rewrite keys_build. unfold first_keys.
+    now rewrite nodup_from_nodup_from.
+  - intros k. rewrite !lookup_extend. unfold last_value at 1.
+    rewrite lookup_rev_NoDup by apply NoDup_keys_build. now rewrite lookup_build.
+Qed.
+
+(** concatenating two built programs is building the concatenated sequence *)
+Theorem add_from_from is1 is2 :
+  add (from_instructions is1) (from_instructions is2) = from_instructions (is1 ++ is2).
+Proof.
+  apply program_ext.
+  - intros kd. rewrite defs_add_raw, !defs_from, sel_app. unfold build at 3. rewrite extend_app.
+    fold (build (sel kd is1)). apply extend_build. apply NoDup_keys_build.
+  - rewrite body_add, !body_from. now rewrite filter_app.
+  - rewrite used_add, !used_from. now rewrite flat_map_app.
+Qed.
+
+Theorem to_instructions_concat is1 is2 :
+  to_instructions (add (from_instructions is1) (from_instructions is2)) = listing_spec (is1 ++ is2).
+Proof. rewrite add_from_from. apply to_instructions_from. Qed.
+
+(** a redefinition replaces in place; a new key is appended *)
+Lemma defs_add_instruction_routed kd k p i :
+  route i = Some (kd, k) -> defs kd (add_instruction p i) = ins k i (defs kd p).
+Proof.
+  intros Hr. rewrite defs_add_instruction. unfold sel. cbn [flat_map]. rewrite Hr, kind_eqb_refl.
+  reflexivity.
+Qed.
+
+Lemma redefinition_in_place kd k p i :
+  route i = Some (kd, k) -> In k (keys (defs kd p)) ->
+  keys (defs kd (add_instruction p i)) = keys (defs kd p) /\
+  lookup k (defs kd (add_instruction p i)) = Some i.
+Proof.
+  intros Hr Hin. rewrite (defs_add_instruction_routed kd k p i Hr). split.
+  - now apply keys_ins_in.
+  - rewrite lookup_ins. now rewrite N.eqb_refl.
+Qed.
+
+Lemma new_definition_appended kd k p i :
+  route i = Some (kd, k) -> ~ In k (keys (defs kd p)) ->
+  defs kd (add_instruction p i) = defs kd p ++ [(k, i)].
+Proof.
+  intros Hr Hni. rewrite (defs_add_instruction_routed kd k p i Hr). now apply ins_notin.
+Qed.
